@@ -5,7 +5,7 @@ import json, os, shutil, subprocess, sys, tempfile
 pid = sys.argv[1]
 variants = sys.argv[2:] or ["a", "b"]
 for v in variants:
-    srcdir = next((d for d in (f"/tmp/seedout/{pid}/{v}", f"/tmp/seedout2/{pid}/{v}", f"/tmp/seedout3/{pid}/{v}", f"/tmp/seedout4/{pid}/{v}", f"/tmp/seedout5/{pid}/{v}", f"/tmp/seedout6/{pid}/{v}") if os.path.exists(d + "/patch.diff")), f"/tmp/seedout/{pid}/{v}")
+    srcdir = next((d for d in (f"/tmp/seedout/{pid}/{v}", f"/tmp/seedout2/{pid}/{v}", f"/tmp/seedout3/{pid}/{v}", f"/tmp/seedout4/{pid}/{v}", f"/tmp/seedout5/{pid}/{v}", f"/tmp/seedout6/{pid}/{v}", f"/tmp/seedout7/{pid}/{v}") if os.path.exists(d + "/patch.diff")), f"/tmp/seedout/{pid}/{v}")
     if not os.path.exists(srcdir + "/patch.diff"):
         print(pid, v, "missing"); continue
     d = tempfile.mkdtemp(prefix="seed_")
